@@ -50,10 +50,11 @@ UNPROVED = ["add_preserves_valid_full (validator on real output only; the writer
             "modelled; the table-level count theorem allocTables_counts is proved and the read-back is compared on every wr op)",
             "add_preserves_disjoint_full (state level: that AddFile/DeleteFile keep the heads of St a list to which the proved "
             "table-level history_preserves_disjoint applies; evaluated on every dumped state instead)",
-            "order_is_mscfb_full (refuted for the unchanged lessDirEnt: order_differs_mixed_case)",
+            "order_is_mscfb_full (refuted for the original lessDirEnt: order_differs_mixed_case; repaired as F4-order)",
             "msi_digest_ignores_signature_full (over file bytes; proved over directory trees: msi_digest_ignores_signature, tied by the MSI ops)",
-            "tar_equals_direct_full / tar_equals_direct_tree_full (every input: refuted by tar_differs_encoded_signature_name; proved under "
-            "tarSafeB: tar_equals_direct)",
+            "tar_equals_direct_tree_full_orig (the code before the repair of Fmsi-tar: refuted by tar_differs_encoded_signature_name / "
+            "tar_differs_nested_signature_name); for the repaired code tar_equals_direct holds for every document MsiToTar converts, "
+            "and msiToTar_refuses characterises the refused ones",
             "sort_panics_iff_full (every list containing a trigger pair panics; proved: no trigger pair => no panic, and the comparator's exact trigger)"]
 IMPL_PARALLEL = 16
 
